@@ -137,6 +137,11 @@ fn marshal_header(
         marshal_header_signature(msg.get_sig(), buf)?;
     }
     if !msg.body.get_fds().is_empty() {
+        // every descriptor the body refers to has to go out with the message: if one was taken out of its UnixFd in
+        // the meantime the message would announce more descriptors than get attached to it
+        if msg.body.get_raw_fds().len() != msg.body.get_fds().len() {
+            return Err(crate::wire::errors::MarshalError::EmptyUnixFd);
+        }
         marshal_header_unix_fds(byteorder, msg.body.get_fds().len() as u32, buf)?;
     }
     let len = buf.len() - pos - 4; // -4 the bytes for the length indicator do not count
